@@ -87,6 +87,7 @@ def FlipPolarity(F):
     def subst(lit):
         return [[-lit]]
     newF.add_clauses_from(apply_substitution(F, subst))
+    newF.update_variable_number(F.number_of_variables())
     return newF
 
 
